@@ -5,9 +5,10 @@
 (* pytype/abstract/class_mixin.py compute_mro, pytype/vm_utils.py make_class (mro_error),     *)
 (* and the language rule they implement (CPython Objects/typeobject.c mro_implementation).    *)
 (*                                                                                            *)
-(* A program is a sequence of class statements.  DefineClass(bs) starts statement Len(hier)+1 *)
-(* with the list of bases bs (ids of earlier *successful* statements, 0 = explicit `object`,  *)
-(* repeats allowed, <<>> = no base list).  The C3 merge then runs as a step machine over      *)
+(* A program is a sequence of class statements.  DefineClass(bs, d) starts statement          *)
+(* Len(hier)+1 with the written list of bases bs (spellings of earlier *successful*           *)
+(* statements, 0 = explicit `object`, repeats allowed, <<>> = no base list; d: see below).    *)
+(* The C3 merge then runs as a step machine over                                             *)
 (* (seqs, res): Emit moves the first good head to res and strips it from all heads, Fail      *)
 (* ends the statement with "order" when no list offers a good head, Finish commits the MRO.   *)
 (* A repeated base ends the statement at once with "dup".  Failed statements stay in hier     *)
